@@ -38,6 +38,10 @@ func init() {
 			{ID: "C05.R18", Text: "a save writes what was settled and nothing else: dirty marks are raised only by the position writer (same rule as C14.R14)", Run: dirtyMarkWriters},
 			{ID: "C05.R19", Text: "a successful save stores the checkpoint under this group's own key: the document key is a function of the group name and the vBucket id of the call (same rule as C14.R4)", Run: c14r4},
 			{ID: "C05.R20", Text: "a failed save is reported by the store itself: no layer books, filters or retries saves on its own (same rules as C20.R19 and C20.R20)", Run: func(c *Ctx, id string) { decoratorsTransparent()(c, id); noNewLayers(c, id) }},
+			{ID: "C05.R21", Text: "a session resumes from what the last successful save stored: the file backend reads the file at every Load (no remembered copy) and returns it under the keys it was written with (same rule as C02.R15)", Run: fileLoadExact},
+			{ID: "C05.R23", Text: "only a successful save clears dirty marks: the getters of the Stream interface (also called by the metric collector and the state endpoints) change no state (same rule as C01.R19)", Run: streamGettersArePure},
+			{ID: "C05.R24", Text: "the first save of a group that starts at latest writes the start positions: Load marks them dirty and raises the flag (same rule as C01.R21)", Run: latestStartMarked},
+			{ID: "C05.R22", Text: "the acknowledged position is the event own sequence number: every event wrapper built by a handler carries Offset.SeqNo ← the event SeqNo (same rule as C01.R4)", Run: c01r4},
 			{ID: "C05.R8", Text: "mark/clear atomicity: the sites that mark the dirty state and the site that clears it hold a common mutex", Run: c05r8},
 		},
 	})
@@ -99,12 +103,7 @@ func c05r1(c *Ctx, id string) {
 			c.CallSites++
 			c.see(cs.Fn)
 			cc := cs.Call.Common()
-			var dirtyArg ssa.Value
-			for i, p := range pw.Params {
-				if isBool(p.Type()) && i < len(cc.Args) {
-					dirtyArg = cc.Args[i]
-				}
-			}
+			_, _, dirtyArg := w.writerArgs(cc, pw)
 			construct := fname(pw) + "@" + fname(cs.Fn)
 			cl := classifyWriterCall(w, cs)
 			if cst, ok := dirtyArg.(*ssa.Const); ok && cst.Value != nil && cst.Value.ExactString() == "false" {
@@ -262,7 +261,7 @@ func c05r3(c *Ctx, id string) {
 				idx, src = ex.Index, ex.Tuple
 			}
 			if call, isCall := src.(*ssa.Call); isCall {
-				if h := call.Common().StaticCallee(); h != nil && w.inModule(h) && h.Pkg == fn.Pkg && len(h.Blocks) > 0 {
+				if h := call.Common().StaticCallee(); h != nil && w.inModule(h) && pkgPathOf(h) == pkgPathOf(fn) && len(h.Blocks) > 0 {
 					var built ssa.Value
 					nRet := 0
 					allInstrs(h, func(in ssa.Instruction) {
@@ -311,8 +310,15 @@ func c05r3(c *Ctx, id string) {
 				}
 			}
 		})
+		valOK := len(cl.Params) == 2 && w.Origin(up.Value) == "param("+cl.Params[1].Name()+")"
+		if !valOK && len(cl.Params) == 2 {
+			// the copy goes through a conversion callback that hands its own parameter back
+			if rv, vp, isConv := convertedValue(up.Value, cl.Params[1], home, homeCall); isConv {
+				valOK = w.Origin(rv) == "param("+vp.Name()+")"
+			}
+		}
 		okd := rcv != nil && strings.HasSuffix(w.Origin(rcv), ".GetOffsets)()#1") && len(cl.Params) == 2 &&
-			w.Origin(up.Key) == "param("+cl.Params[0].Name()+")" && w.Origin(up.Value) == "param("+cl.Params[1].Name()+")" && len(guardsOf(up.Block())) == 0
+			w.Origin(up.Key) == "param("+cl.Params[0].Name()+")" && valOK && len(guardsOf(up.Block())) == 0
 		c.Check(okd, id, "dirty-dump@"+fname(fn), up.Pos(), "dirty dump copies every (key, value) of GetOffsets()#1",
 			fmt.Sprintf("dirty dump is not a full copy of GetOffsets()#1: source %s, key %s, value %s, guards %d", w.Origin(rcv), w.Origin(up.Key), w.Origin(up.Value), len(guardsOf(up.Block()))))
 	}
@@ -481,6 +487,17 @@ func c05r5(c *Ctx, id string) {
 		// ctx derives from Checkpoint.Timeout
 		cc := callOf(in)
 		org := w.Origin(cc.Args[1])
+		// a parameter bundle built at the call site: its fields are the arguments
+		if wc, isCall := unwrap(cc.Args[1]).(*ssa.Call); isCall {
+			for _, a := range wc.Common().Args {
+				if al := asAlloc(a); al != nil && isBundle(al.Type().(*types.Pointer).Elem()) {
+					tab, _ := allocTable(al)
+					for _, f := range sortedKeys(tab) {
+						org += " {" + f + ": " + w.Origin(tab[f]) + "}"
+					}
+				}
+			}
+		}
 		c.Check(strings.Contains(org, "context.WithTimeout") && strings.Contains(org, "Checkpoint.Timeout") && strings.Contains(org, key), id, "ctx@"+fname(cbs), in.Pos(),
 			"writer gets the Checkpoint.Timeout context and the ranged key", "writer spawned as "+org+" — expected the context derived from Checkpoint.Timeout and the dirty key")
 	}
